@@ -209,7 +209,9 @@ def format_model(I, value, spec=""):
     w = vals[0]
     L = I.ctx.fresh("width", "int")
     v = S(value)
-    I.ctx.assume(z3.And(L >= S(w), z3.Implies(z3.And(v >= 0, v < S(pow2(I, w))), L == S(w)),
+    # at least one digit is printed (format(0, "00b") == "0"), hence the `w >= 1` in the equality case
+    I.ctx.assume(z3.And(L >= S(w), L >= 1,
+                        z3.Implies(z3.And(v >= 0, v < S(pow2(I, w)), S(w) >= 1), L == S(w)),
                         z3.Implies(v >= S(pow2(I, w)), L > S(w))))
     I.session.note("format(i, f'0{n}b') modelled: binary digits of i, most significant first, zero-padded to "
                    "width >= n; width == n iff i < 2**n")
@@ -219,7 +221,7 @@ def format_model(I, value, spec=""):
 def index_to_bitstring_model(I, nqubits, index):
     """index_to_bitstring as a function -- its verified contract; the precondition is collected"""
     I.ctx.ghost.setdefault("c15_pending_pre", []).append(
-        z3.And(S(index) >= 0, S(index) < S(pow2(I, nqubits))))
+        z3.And(S(nqubits) >= 1, S(index) >= 0, S(index) < S(pow2(I, nqubits))))
     return bits_string(I, index, nqubits)
 
 
@@ -365,7 +367,8 @@ def register(reg, prop="C15"):
     reg.add_contract(Contract(
         f"{SVUTILS}:index_to_bitstring", property=prop,
         params={"nqubits": "int", "index": "int"},
-        requires=["nqubits >= 0", "index >= 0"],
+        # nqubits = 0 is outside the property (>= 1 atom): format(0, "00b") is "0", one character, not zero
+        requires=["nqubits >= 1", "index >= 0"],
         raises={"AssertionError": "not (index < pow2(nqubits))"},
         raises_when={"AssertionError": "not (index < pow2(nqubits))"},
         ensures=["len(result) == nqubits",
@@ -395,7 +398,7 @@ def register(reg, prop="C15"):
         def make(I, name):
             o = SymObj(cls, module)
             n = I.ctx.fresh("n_qudits", "int")
-            I.ctx.assume(n >= 0)
+            I.ctx.assume(n >= 1)           # at least one atom
             o.fields["n_qudits"] = n
             size = pow2(I, n)
             if matrix:
@@ -416,8 +419,9 @@ def register(reg, prop="C15"):
             f"{module}:{cls}.sample", property=prop,
             params={"self": sv_state(cls, module, matrix), "num_shots": "int", "one_state": "none",
                     "p_false_pos": "real", "p_false_neg": "real"},
-            # A4 (constructor assert): the data has 2**n entries and n_qudits = log2 of that
-            requires=["num_shots >= 0"],
+            # A4 (constructor assert): the data has 2**n entries and n_qudits = log2 of that.
+            # num_shots = 0 is outside the property (1..20000): torch.multinomial refuses it (RuntimeError)
+            requires=["num_shots >= 1"],
             raises={},
             policies={f"{SVUTILS}:index_to_bitstring": index_to_bitstring_model},
             ensures=["result.total == num_shots", "result.keys_ok and result.keylen == self.n_qudits",
